@@ -35,6 +35,17 @@ VERUS_UNITS = {
 LINT = {"replace_line": ("minicbor/src/lib.rs", r"^#!\[forbid\(unused_variables\)\]",
                          "#![cfg_attr(not(kani), forbid(unused_variables))]")}
 
+KANI_ERROR_OBSERVERS = """
+#[cfg(kani)]
+impl Error {
+    pub(crate) fn kani_is_overflow(&self) -> bool { matches!(self.err, ErrorImpl::Overflow(_)) }
+    pub(crate) fn kani_is_utf8(&self) -> bool { matches!(self.err, ErrorImpl::Utf8(_)) }
+    pub(crate) fn kani_is_invalid_char(&self) -> bool { matches!(self.err, ErrorImpl::InvalidChar(_)) }
+    #[cfg(feature = "alloc")]
+    pub(crate) fn kani_message_class() -> Self { Error { err: ErrorImpl::Message, pos: None, msg: alloc::string::String::new() } }
+}
+"""
+
 KANI_CRATES = {
     "minicbor": {
         "dir": "minicbor",
@@ -42,6 +53,10 @@ KANI_CRATES = {
             LINT,
             {"copy": ("spec/rfc8949_ref.rs", "minicbor/src/kani_refspec.rs")},
             {"append": ("minicbor/src/lib.rs", "#[cfg(kani)] mod kani_refspec;")},
+            {"copy": ("spec/kani_stubs.rs", "minicbor/src/kani_refspec_stubs.rs")},
+            {"append": ("minicbor/src/lib.rs", "#[cfg(kani)] mod kani_refspec_stubs;")},
+            # observers for error classes that have no public is_* (appended code, no function body touched)
+            {"append": ("minicbor/src/decode/error.rs", KANI_ERROR_OBSERVERS)},
         ],
     },
 }
@@ -55,6 +70,15 @@ KANI_UNITS = {
             {"append": ("minicbor/src/lib.rs", "#[cfg(kani)] mod kani_int_matrix;")},
         ],
         "module": "kani_int_matrix",
+    },
+    "roundtrip": {
+        "crate": "minicbor",
+        "src": "units/kani/minicbor/roundtrip.rs",
+        "inject": [
+            {"copy": ("units/kani/minicbor/roundtrip.rs", "minicbor/src/kani_roundtrip.rs")},
+            {"append": ("minicbor/src/lib.rs", "#[cfg(kani)] mod kani_roundtrip;")},
+        ],
+        "module": "kani_roundtrip",
     },
 }
 
